@@ -29,6 +29,7 @@ Inductive fmsg :=
 | Fat12        (* "FAT12 is unsupported" *)
 | FatFormat    (* "Invalid FAT format" *)
 | NoFit        (* "Volume does not fit the device" *)
+| FatSmall     (* "FAT too small for the cluster count" *)
 | InfoLoc      (* "Bad FS info location" *)
 | LeadSig      (* "Bad lead signature on InfoSector" *)
 | StrucSig     (* "Bad struc signature on InfoSector" *)
@@ -197,10 +198,13 @@ Definition parse_volume (dev : device) (lba_start num_blocks : N) : outcome volu
   let! blk := read_block dev lba_start in
   let! b := bpb_create blk in
   let d := bpb_data b in
-  let! last := sub32 (bpb_total_blocks d) 1 in
-  match checked_add32 lba_start last with
+  match checked_add32 lba_start (bpb_total_blocks d) with
   | None => Err (FormatError NoFit)
   | Some _ =>
+    if (bpb_reserved_block_count d =? 0) || (bpb_num_fats d =? 0) then Err (FormatError BpbCounts) else
+    (* u64 arithmetic in the code: no overflow *)
+    if bpb_fat_size d * 512 <? (bpb_cluster_count b + 2) * (match bpb_fat_type b with Fat16 => 2 | Fat32 => 4 end)
+    then Err (FormatError FatSmall) else
     let fat_start := bpb_reserved_block_count d in
     let! second_fat_start :=
       (if bpb_num_fats d =? 2 then let! s := add32 fat_start (bpb_fat_size d) in Ok (Some s)
@@ -220,6 +224,7 @@ Definition parse_volume (dev : device) (lba_start num_blocks : N) : outcome volu
     | Fat32 =>
       let! fats := mul32 (bpb_num_fats d) (bpb_fat_size d) in
       let! first_data_block := add32 fat_start fats in
+      if 268435445 <? bpb_cluster_count b then Err (FormatError FatFormat) else
       match bpb_fs_info_block b with
       | None => Panic   (* .unwrap() *)
       | Some info_location =>
